@@ -348,6 +348,11 @@ func cmdCheck(args []string) int {
 			fe["callee_contracts_used"] = u.Callees
 		}
 		for cc := range w.usedContracts[u.unit] {
+			for _, en := range cc.Ensures {
+				if en.Assumed && !cc.Trusted {
+					addAsm(fmt.Sprintf("assumed clause (trust) of %s used: [%s] %s", cc.Func, en.Tag, en.Text))
+				}
+			}
 			if cc.Trusted || strings.Contains(cc.Func, "/") || isLibKey(cc.Func) || strings.HasPrefix(cc.Func, "type:") || strings.HasPrefix(cc.Func, "field:") || strings.HasPrefix(cc.Func, "param:") {
 				addAsm("assumed contract (trusted, body not verified) used: " + cc.Func)
 			}
